@@ -375,7 +375,7 @@ def run(ctx):
     if ctx.replay:
         cases = [ctx.replay['case']] if ctx.replay.get('case') else []
     else:
-        n = 150000 if ctx.thorough else (10000 if ctx.escalate else 2500)
+        n = 200000 if ctx.thorough else (30000 if ctx.escalate else 8000)
         cases = [c['case'] if 'case' in c else c for c in ctx.corpus]
         cases += [{'toks': t.split(), 'ipc': ipc, 'spec': spec, 'kind': 'fixed'} for t, ipc, spec in FIXED]
         cases += [gen_malformed(rng) if rng.random() < 0.15 else gen_valid(rng) for _ in range(n)]
